@@ -438,6 +438,27 @@ class _IterWalk(object):
             return len(v) if e.func.id == "len" else tuple(v)
         raise AnalysisError("tree-iter: expression %s" % pyfront.unparse(e))
 
+    def _chain_arg(self, e):
+        """(start expression, enumerated?) when e iterates a module-level generator
+        that walks a leaf chain (`while b is not None: yield b; b = b._next`)"""
+        counted = False
+        if isinstance(e, ast.Call) and isinstance(e.func, ast.Name) and e.func.id == "enumerate" and len(e.args) == 1:
+            counted = True
+            e = e.args[0]
+        if not (isinstance(e, ast.Call) and isinstance(e.func, ast.Name) and len(e.args) == 1):
+            return None
+        g = pyfront.functions(pyfront.base_py()).get(e.func.id)
+        if g is None or len(g.args.args) != 1:
+            return None
+        p = g.args.args[0].arg
+        body = [x for x in g.body if not (isinstance(x, ast.Expr) and isinstance(x.value, ast.Constant))]
+        if len(body) == 1 and isinstance(body[0], ast.While) and pyfront.unparse(body[0].test) == "%s is not None" % p:
+            b = body[0].body
+            if len(b) == 2 and isinstance(b[0], ast.Expr) and isinstance(b[0].value, ast.Yield) and \
+                    pyfront.unparse(b[0].value.value) == p and pyfront.unparse(b[1]) == "%s = %s._next" % (p, p):
+                return e.args[0], counted
+        return None
+
     def leaf_call(self, e):
         """getattr(<leaf>, itertype)(args...) -> (leaf, args)"""
         if not (isinstance(e, ast.Call) and isinstance(e.func, ast.Call)
@@ -489,6 +510,18 @@ class _IterWalk(object):
                     if guard > 10:
                         raise AnalysisError("tree-iter: loop does not advance")
                     self.run(st.body)
+            elif isinstance(st, ast.For) and self._chain_arg(st.iter) is not None:
+                # for [pos,] bucket in [enumerate(]chain(first)[)]: the leaves in chain order
+                arg, counted = self._chain_arg(st.iter)
+                leaf = self.ev(arg)
+                pos = 0
+                while leaf is not None:
+                    if not isinstance(leaf, int) or isinstance(leaf, bool):
+                        raise AnalysisError("tree-iter: chain starts at %r" % (leaf,))
+                    self.assign(st.target, (pos, leaf) if counted else leaf)
+                    self.run(st.body)
+                    leaf = leaf + 1 if leaf + 1 < NLEAVES else None
+                    pos += 1
             elif isinstance(st, ast.For):
                 leaf, args = self.leaf_call(st.iter)
                 if not isinstance(leaf, int) or isinstance(leaf, bool):
